@@ -162,6 +162,7 @@ def check(ctx):
         raise AnalysisError("update thread target not resolved")
     upd = upd[0]
     ctx.run(lambda c_: rule_update_thread(c_, "C20.R2", spo, upd))
+    ctx.run(lambda c_: rule_update_thread(c_, "C20.R2", spo, upd, failing_output=True))
     # ---------------------------------------------------------------- R3
     ex = spo.methods["__exit__"]
     calls = ex.own_calls()
@@ -267,7 +268,18 @@ def check(ctx):
                "running-set membership does not follow running > 0")
 
 
-def rule_update_thread(ctx, rid, spo, upd):
+def update_thread_of(m):
+    spo = m.one_class("SimpleProgressObserver", "OBSERVER")
+    ut = [tg for (c, call, tg) in m.thread_targets if c.cls is spo]
+    if len(ut) != 1:
+        raise AnalysisError("update thread target not found")
+    upd = [o[1] for o in ut[0] if o[0] in ("bound", "func")]
+    if len(upd) != 1:
+        raise AnalysisError("update thread target not resolved")
+    return spo, upd[0]
+
+
+def rule_update_thread(ctx, rid, spo, upd, failing_output=False, termination_only=False):
     """The update thread, evaluated against every placement of the end of the run.
 
     The observer object is built by interpreting SimpleProgressObserver.__init__; lock, done event, clock, _render and _output
@@ -346,6 +358,8 @@ def rule_update_thread(ctx, rid, spo, upd):
         def output(v):
             tick()
             events.append(("output", st["held"], v))
+            if failing_output:
+                raise AbsRaise("OSError: the display's sink fails (disk full, closed pipe)")
 
         def clock():
             tick()
@@ -376,7 +390,16 @@ def rule_update_thread(ctx, rid, spo, upd):
         except AbsRaise as e:
             why = ("the update thread does not terminate after the done event is set" if e.value == "NO-TERMINATION" else
                    f"the update thread dies with {e.value!r}")
+            if failing_output and e.value != "NO-TERMINATION":
+                why = None  # a persistently failing sink may end the thread; it must not keep it alive for ever
+                st["fired"] = st["fired"] if st["fired"] is not None else 0
         n_runs += 1
+        if failing_output or termination_only:
+            if why and not failing_output and "does not terminate" not in why and "never set" not in why:
+                why = None  # C17 asks only that the thread ends once the run has ended
+            if why:
+                problems.setdefault(why + ": the observer's __exit__ joins this thread, so run() never returns (also after Ctrl-C)", []).append(k)
+            continue
         if why is None and st["fired"] is None:
             # the thread ended before moment k although the run never ended
             terminated_without_moment = True
@@ -401,6 +424,13 @@ def rule_update_thread(ctx, rid, spo, upd):
             problems.setdefault(why, []).append(k)
         if terminated_without_moment:
             break
+    if failing_output or termination_only:
+        ok = not problems
+        ctx.ob(rid, f"{upd.short}/terminates-with-failing-sink" if failing_output else f"{upd.short}/terminates", ok, loc(upd),
+               f"evaluated with an output sink that {'fails on every call' if failing_output else 'works'}, for the end of the run placed at each of the first {K} interactions: "
+               f"the update thread ends (so the observer's __exit__, which joins it, returns)" if ok else
+               "; ".join(f"{w} (end of run at interaction {ks[0]})" for w, ks in problems.items()))
+        return
     ok = not problems
     desc = "; ".join(f"{w} (end of run at interaction {ks[0]}{'' if len(ks) == 1 else f' and {len(ks) - 1} other placements'})" for w, ks in problems.items())
     ctx.ob(rid, f"{upd.short}/final-state-rendered", ok, loc(upd),
